@@ -188,13 +188,55 @@ def run(ctx):
             if r and not r[1].startswith("OkSome content=VALUE1"):
                 violations.append({"what": "after re-publishing a cached blob, get returns %s instead of the value" % r[1][:40],
                                    "classification": {"kind": "wrong-value", "how": "hard-link-to-cached"}, "replay": {"kind": "history", "scenario": lines}})
+    # "first put since the key was last absent" also when the put hits a transient I/O error: every call
+    # of a put onto a present key fails once; whatever the put reports, the key still maps to the first value
+    import concurrent.futures as cf
+    fjobs = []
+    for w in (("plain", 300), ("sharded", 4, 1200)):
+        for second in ("put", "put_temp"):
+            K1 = ("kk", 7, 9)
+            L = G.header(w, (), "none") + [G.NOFIRE, G.op(0, "set", K1, "FIRST", 1), G.NOFIRE, G.op(0, second, K1, "SECOND", 1), G.NOFIRE, G.op(0, "get", K1), "snap"]
+            clean = S.run_impl(L)
+            st2 = next((x for x in clean.steps if x["step"] == 2), None)
+            if not st2:
+                continue
+            upto = st2["returned_at"] if st2["returned_at"] is not None else len(st2["events"])
+            can, seqs = T.canon(st2["events"][:upto], with_seq=True)
+            nstage = len(T.canon(st2["events"][:st2["staged_at"]]))
+            for kk in range(nstage, len(can)):
+                if can[kk][0] in ("close", "closedir"):
+                    continue
+                fjobs.append(({"front": w[0], "second": second, "call": can[kk][0]}, L, seqs[kk], kk))
+
+    def fone(job):
+        desc, L, seq, kk = job
+        try:
+            impl = S.run_impl(L, fault=(seq, "EIO"))
+            model = S.run_model(S.augment(L, impl, fault_by_step={2: (kk, "EIO")}))
+            return job, impl, S.compare(L, impl, model, what=("result", "snapshot"))
+        except Exception as ex:
+            return job, None, ["EXCEPTION " + repr(ex)]
+    with cf.ThreadPoolExecutor(16) as ex:
+        fres = list(ex.map(fone, fjobs))
+    for (desc, L, seq, kk), impl, diffs in fres:
+        if diffs:
+            ties.append({"what": "model and implementation disagree on a put hitting a transient error", "case": str(desc), "detail": diffs[:3], "scenario": L})
+        else:
+            agree += 1
+        if impl is None or 3 not in impl.results:
+            continue
+        nontriv += 1
+        if not impl.results[3][1].startswith("OkSome content=FIRST"):
+            violations.append({"what": "set(k, FIRST); put(k, SECOND) whose %s failed once with EIO; get(k) returns %s: the put changed an existing key" % (desc["call"], impl.results[3][1][:50]),
+                               "classification": {"kind": "put-overwrote-under-fault", "second": desc["second"]},
+                               "replay": {"kind": "fault", "scenario": L, "fault_seq": seq, "errno": "EIO", "result": impl.results[3][1]}})
     seen, uniq = set(), []
     for v in violations:
         k = tuple(sorted(v["classification"].items()))
         if k not in seen:
             seen.add(k); uniq.append(v)
-    cov = {"evaluations": len(res) + len(rres), "distinct_nontrivial": nontriv, "steps": steps, "republication_histories": len(rres),
-           "rule": "random histories (%s operations) of get/touch/set/put/set_temp_file/put_temp_file/ensure/get_or_update over 4-8 keys with clustered, identical and spread hashes, through plain, sharded (2/3/4/8 shards) and stacked caches with capacities from 'maintain on every write' to 'never', 1-3 independent handles, scripted trigger and shard draws; after EVERY step the result and a full snapshot are compared with the model, and a key-value-map oracle is applied to the implementation's own observations (latest set / first put, no vanishing on reads, single copy, source consumed). In addition re-publication histories: the path given to set / put is a hard link to an already cached file (same or other key): the call must succeed, consume the path, and lookups return the value. Non-trivial = an eviction happened, more than one handle, or a re-publication." % ("20-60" if ctx.quick() else "40-200"),
+    cov = {"evaluations": len(res) + len(rres) + len(fres), "put_fault_runs": len(fres), "distinct_nontrivial": nontriv, "steps": steps, "republication_histories": len(rres),
+           "rule": "random histories (%s operations) of get/touch/set/put/set_temp_file/put_temp_file/ensure/get_or_update over 4-8 keys with clustered, identical and spread hashes, through plain, sharded (2/3/4/8 shards) and stacked caches with capacities from 'maintain on every write' to 'never', 1-3 independent handles, scripted trigger and shard draws; after EVERY step the result and a full snapshot are compared with the model, and a key-value-map oracle is applied to the implementation's own observations (latest set / first put, no vanishing on reads, single copy, source consumed). In addition re-publication histories: the path given to set / put is a hard link to an already cached file (same or other key): the call must succeed, consume the path, and lookups return the value. Also set then put with every call of the put failing once (EIO): the key keeps the first value. Non-trivial = an eviction happened, more than one handle, a re-publication, or a fault run." % ("20-60" if ctx.quick() else "40-200"),
            "samples": samples, "traces_validated_against_impl": agree}
     if not ctx.quick():
         rc, o = C.coqchk(PROPS)
